@@ -161,6 +161,22 @@ def run(tier, seed):
                 all_obs += r["role_obs"]
                 key = f"ctrl={r['cfg']['ctrlA']}{r['cfg']['ctrlB']} reg={r['cfg']['regA']}{r['cfg']['regB']} loss={r['cfg']['loss']}"
                 kinds[key] = kinds.get(key, 0) + 1
+            # committed witnesses of the known findings run first; each still-failing one is reported once
+            for fn, k in (("cands_before_creds.scn", "K1"), ("aggressive_prflx_not_mirrored.scn", "K2")):
+                pth = os.path.join(vlib.ROOT, "corpus", "C01", fn)
+                if os.path.exists(pth):
+                    script = [l.strip() for l in open(pth) if l.strip() and not l.startswith("#")]
+                    out, err, rc = simlib.replay_script(exe, script)
+                    qs = [simlib.parse_q(l) for l in out.splitlines() if l.startswith("ok state ")]
+                    half = qs[len(qs) // 2:]
+                    failing = any(half[i]["state"] != "READY" or half[i + 1]["state"] != "READY" or
+                                  half[i]["local"] != half[i + 1]["remote"] or half[i]["remote"] != half[i + 1]["local"]
+                                  for i in range(0, len(half) - 1, 2))
+                    if rc != 0:
+                        ofail.append({"why": f"witness {fn} crashed the agent", "session": script, "stderr": err[-1500:]})
+                    elif failing:
+                        known_seen.pop(k, None)
+                        chk.known((sc.K1_TEXT if k == "K1" else sc.K2_TEXT) + f" [witness corpus/C01/{fn}]")
             for k, (what, sd) in sorted(known_seen.items()):
                 chk.known((sc.K1_TEXT if k == "K1" else sc.K2_TEXT) + f" [e.g. scenario seed {sd}: {what}]")
             badobs, nobs = ([], 0)
